@@ -115,6 +115,12 @@ func cmdCheck(args []string) int {
 		fmt.Println("bad property config:", err)
 		return 3
 	}
+	// replay files of earlier runs of this property are obsolete
+	if old, _ := filepath.Glob(filepath.Join(verifDir, "replays", prop+"-*.json")); len(old) > 0 {
+		for _, f := range old {
+			os.Remove(f)
+		}
+	}
 	var known KnownFile
 	if b, err := os.ReadFile(filepath.Join(verifDir, "known_findings.json")); err == nil {
 		json.Unmarshal(b, &known)
@@ -218,12 +224,20 @@ func cmdCheck(args []string) int {
 	validated := 0
 	if (needNative || nwit > 0) && len(results) > 0 {
 		var err error
-		bin, err = buildNative(files, cases, false, cfg.RewriteOS)
+		var rwProg *Program
+		if cfg.RewriteOS {
+			// the rewrite needs type information for every file set in play: load once with all of them
+			rwProg, err = loadProgram(files)
+			if err != nil {
+				problems = append(problems, "NATIVE-BUILD-ERROR: "+err.Error())
+			}
+		}
+		bin, err = buildNative(files, cases, false, rwProg)
 		if err != nil {
 			problems = append(problems, "NATIVE-BUILD-ERROR: "+err.Error())
 		}
 		if needRace {
-			raceBin, err = buildNative(files, cases, true, cfg.RewriteOS)
+			raceBin, err = buildNative(files, cases, true, rwProg)
 			if err != nil {
 				problems = append(problems, "NATIVE-BUILD-ERROR(race): "+err.Error())
 			}
@@ -479,7 +493,11 @@ func cmdReplay(prop, path string) int {
 		json.Unmarshal(cb, &cfg)
 	}
 	cases := map[string][2]interface{}{caseKey(rf.Harness, rf.Args): {rf.Harness, rf.Args}}
-	bin, err := buildNative(rf.Files, cases, rf.Kind == "RACE", cfg.RewriteOS)
+	var rwProg *Program
+	if cfg.RewriteOS {
+		rwProg, _ = loadProgram(rf.Files)
+	}
+	bin, err := buildNative(rf.Files, cases, rf.Kind == "RACE", rwProg)
 	if err != nil {
 		fmt.Println(err)
 		return 3
